@@ -257,7 +257,13 @@ func (e *Engine) displayLine() {
 	}
 
 	// Format tabs as spaces, for consistent display
-	line = strutil.FormatTabs(line) + term.ClearLineAfter
+	line = strutil.FormatTabs(line)
+
+	// Clear what follows the line, unless it ends on the last column: the cursor
+	// is still on that column then, and erasing from it erases the last character.
+	if e.lineCol != 0 {
+		line += term.ClearLineAfter
+	}
 
 	// And display the line.
 	e.suggested.Set([]rune(line)...)
